@@ -11,6 +11,7 @@ global size_of usize == 8;
 //@ include units/verbarg/enc.rs
 //@ include units/verbarg/roundtrip.rs
 //@ include units/verbarg/serde.rs
+//@ include units/verbarg/render_stubs.rs
 //@ include units/verbarg/render.rs
 
 fn main() {}
